@@ -145,6 +145,10 @@ structure Tab where
   impls : List ImplRow := []
   externs : List (String × ExternDef) := []
   builtins : List String := []
+  /-- semantics parameter, `false` in the source meaning.  `true` = the initialisers of a struct
+      literal run in DECLARATION order of the fields instead of the order they are written in;
+      only used to attribute a divergence to exactly that choice (`tools/props/c01.py`) -/
+  litDeclOrder : Bool := false
   deriving Inhabited
 
 def intName (bits : Nat) (signed : Bool) : String := (if signed then "int" else "uint") ++ toString bits
@@ -182,9 +186,10 @@ def tyIsInstance (generics : List String) : TyE → Bool
   | .func _ _ => true
   | _ => false
 
-def Tab.ofProg (P : Prog) : Tab :=
+def Tab.ofProg (P : Prog) (litDeclOrder : Bool := false) : Tab :=
   let items : List (String × Item) := P.files.flatMap (fun f => f.items.map (fun i => (f.package, i)))
-  { packages := (P.files.map (·.package)).eraseDups
+  { litDeclOrder := litDeclOrder
+    packages := (P.files.map (·.package)).eraseDups
     fns := items.filterMap (fun (pkg, i) => match i with
       | .fn d => some (qual pkg d.name, pkg, d) | _ => none)
     enums := items.filterMap (fun (pkg, i) => match i with
@@ -439,6 +444,13 @@ end
 def buildStruct (decl : List String) (inits : List (String × Val)) : Option (List Val) :=
   decl.mapM (fun f => (inits.find? (·.1 == f)).map (·.2))
 
+/-- the order in which the initialisers of a struct literal run: as written (the source meaning);
+    under the `litDeclOrder` parameter, by declaration order of the fields -/
+def initOrder (declOrder : Bool) (decl : List String) (fs : List FieldInit) : List FieldInit :=
+  if declOrder then
+    decl.filterMap (fun f => fs.find? (·.name == f)) ++ fs.filter (fun fi => !decl.contains fi.name)
+  else fs
+
 /-! ### name lookup -/
 
 /-- a global name used as a value, seen from package `pkg` -/
@@ -599,13 +611,13 @@ def eval (fuel : Nat) (T : Tab) (ctx : Ctx) (ρ : Env) (w : World) (e : Expr) : 
         | _, _ => .fail (.stuck ("unknown constructor " ++ "::".intercalate path)) w
   | .structLit path fields =>
     -- initialisers run in WRITTEN order; the value stores them in declaration order
-    match evalFields fuel T ctx ρ w fields with
-    | .fail f w => .fail f w
-    | .ok inits w =>
-      let ty := qualPath ctx.pkg path
-      match T.findStruct ty with
-      | none => .fail (.stuck ("unknown struct " ++ ty)) w
-      | some d =>
+    let ty := qualPath ctx.pkg path
+    match T.findStruct ty with
+    | none => .fail (.stuck ("unknown struct " ++ ty)) w
+    | some d =>
+      match evalFields fuel T ctx ρ w (initOrder T.litDeclOrder (d.fields.map (·.1)) fields) with
+      | .fail f w => .fail f w
+      | .ok inits w =>
         match buildStruct (d.fields.map (·.1)) inits with
         | some vals => .ok (.structV ty vals) w
         | none => .fail (.stuck ("struct literal misses a field of " ++ ty)) w
@@ -827,8 +839,9 @@ def apply (fuel : Nat) (T : Tab) (w : World) (f : Val) (args : List Val) : Res V
   | _ => .fail (.stuck "call of a non-function value") w
 end
 
-def run (fuel : Nat) (P : Prog) (entry : String := "main") (eager : Bool := true) : Sem.Outcome :=
-  match apply fuel (Tab.ofProg P) { eager := eager } (.fn (.top entry)) [] with
+def run (fuel : Nat) (P : Prog) (entry : String := "main") (eager : Bool := true)
+    (litDeclOrder : Bool := false) : Sem.Outcome :=
+  match apply fuel (Tab.ofProg P litDeclOrder) { eager := eager } (.fn (.top entry)) [] with
   | .ok _ w => { out := w.out, status := "ok", externs := w.externs }
   | .fail f w => { out := w.out, status := failStr f, externs := w.externs }
 
